@@ -23,6 +23,13 @@ pub fn name(s: &str) -> &'static str {
     })
 }
 
+fn calib() -> bool {
+    thread_local! {
+        static ON: bool = std::env::var("C01_CALIB").is_ok();
+    }
+    ON.with(|x| *x)
+}
+
 pub fn count(s: &str) {
     mc::count(name(s));
 }
@@ -36,6 +43,10 @@ pub fn broken(op: &str, clause: &str, observed: f64, tol: f64) -> bool {
     }
     if tol > 0.0 {
         if observed > tol / 4.0 {
+            if calib() {
+                // development aid: C01_CALIB=1 prints every case within a factor 4 of its tolerance
+                eprintln!("CALIB {}:{} ratio={:.3}", op, clause, observed / tol);
+            }
             count(&format!("near4:{}:{}", op, clause));
         } else if observed > tol / 16.0 {
             count(&format!("near16:{}:{}", op, clause));
